@@ -1,3 +1,4 @@
+import re
 """Per-property configuration and the generic property runner."""
 import json, os, re, sys, time
 
@@ -347,6 +348,28 @@ ENGINES.append({"name": "crash", "path": "harness/src/crash_engine.rs (+ rawdb d
 ENGINES.append({"name": "sched", "path": "harness/src/sched_engine.rs + lean/Driver/LocksProto.lean", "serves_properties": ["C11", "C09", "C10"],
      "kind_free_text": "trace mode: 48 operation × state scenarios of rawdb and vecdb run alone under the guarded lock shim, acquisition traces checked by the Lean driver against the lock order; directed schedules (C09/C10): threads stopped at lock requests / pause points while another thread runs a script"})
 
+def proj_after_L(body):
+    m = re.search(r"(?:^|\| )L (.*)$", body)
+    return m.group(1).strip() if m else body
+
+
+def c10_features(case):
+    head = case["ops"][0] if case["ops"] else ""
+    kv = dict(w.split("=", 1) for w in head.split() if "=" in w)
+    kinds = set()
+    trace = [kv.get("a", "?"), kv.get("b", "?"), kv.get("hold", "0")]
+    for op, obs in zip(case["ops"][1:], case["impl"][1:]):
+        ev = split_obs(obs)[0].split(" ")[0]
+        trace.append(ev)
+        if ev != "-":
+            kinds.add("parked-" + ev.split(":")[0] + "-" + ev.split(":")[-1])
+        if " w=1" in obs:
+            kinds.add("other-thread-had-to-wait")
+    kinds.add("a=" + kv.get("a", "?"))
+    kinds.add("b=" + kv.get("b", "?"))
+    return trace, kinds
+
+
 def openlock_features(case):
     kinds = set()
     trace = []
@@ -381,6 +404,9 @@ def openlock_features(case):
             pass
     return trace, (kinds if len(kinds) >= 3 else set())
 
+
+ENGINES.append({"name": "c10", "path": "harness/src/c10_engine.rs + harness/src/dsched.rs + lean/Driver/C10Proto.lean", "serves_properties": ["C10"],
+     "kind_free_text": "directed schedules on one real database: thread A runs one operation on its region (create — also with the only hole of a full file —, write that fits / extends the last region / expands into a hole / relocates into a hole / relocates to the end / grows the file, truncate, remove, rename, flush, compact) and is parked at EVERY lock event of that operation in turn (request, acquisition, release, reported by the guarded lock shim); while it is parked thread B runs a script on its own regions (create+write, create+write+grow, grow+flush+create, compact, flush+reuse of freed extents); model-free oracle: no panic, nobody blocked for good, every region holds exactly what its own thread wrote (checked by B after each step and for all regions at the end), C02 extent invariants at the end, a Reader of A's region created before the schedule still returns A's bytes; the final layout is checked by the Lean driver with the disjointness check proved sound against the model"})
 
 ENGINES.append({"name": "openlock", "path": "harness/src/openlock_engine.rs + lean/Driver/OpenLockProto.lean", "serves_properties": ["C18"],
      "kind_free_text": "histories of opens on one directory — kept, or dropped at once; from a fresh thread or from a child process re-executing the harness; Database::open and open_with_min_len with lengths absent, below, equal to and above the current file size — interleaved with clones, readers, region-derived database references, background tasks, drops in any order and flushed writes of the holder; model-free oracle: an attempt made while any reference is alive fails with Error::TryLock and leaves every file of the directory byte-identical, an attempt with none alive succeeds and reads the last flushed value; outcome and data-file length compared with the Lean model after every request"})
@@ -514,6 +540,18 @@ PROPS = {
         level_text="Lean 4 theorems over the transliterated read paths: a one-source lazy vector's range read is exactly the formula on [from, min(to,len)) (C15_from1_range); point reads of all arities are the formula and yield nothing beyond the governing length (C15_from_one, C15_from_oob, C15_from_range_oob); the delta vector's point read is source[h] - source[start-1] without panic whenever the window starts at or before h, nothing out of range (C15_delta_one, C15_delta_oob); the sparse aggregation's point read is the formula, nothing out of range (C15_agg_one, C15_agg_oob, C15_agg_range_oob). The two places where the code violates the property are kept as model counterexamples and replayed witnesses (F7, F8). The window arithmetic of the delta range path and the slot table of the aggregation range path are validated by the correspondence (six range APIs = formula = model) on clean mappings; their Lean range theorems are not done yet.",
         level_note="Trusted: Lean kernel + standard axioms; hand-written model; harness. F22 (collect_range with a huge upper bound panicked) found here, repaired by a fix: commit.",
         technique="Lean 4 proof over transliterated lazy read paths + differential run of all read APIs against the defining formula and the model",
+    ),
+    "C10": dict(
+        lean="AnyDB.Props.C10",
+        runs=[
+            Run("c10", "schedules", [], (58, 3), (58, 1), proj_after_L, ["C10", "panic"], c10_features, clean=False),
+        ],
+        rule="cases = the 13 operations of thread A × 4 scripts of thread B (52 pairs) + 6 pairs with a Reader of A's region held across the whole schedule; per pair: the schedule without parking, then A parked at its k-th lock event for k = 1, 1+s, 1+2s, … (s = 3 in the quick tier with a different offset per run seed, s = 1 = every event in the thorough tier); non-trivial = parked at at least two different kinds of lock event; distinct = distinct (pair, parking-event sequence)",
+        assumptions=["schedules are directed at lock-event granularity: two threads, one parked at a time; effects between two lock events of one thread are atomic for the other thread only as far as the real locks make them so (that is what is being tested)",
+                     "a refused Region::remove (RegionStillReferenced while another handle is alive) is a legal outcome; the region then stays as it was"],
+        level_text="Lean 4 theorems over the shared layout changed by atomic sections (the code between taking and dropping the layout write lock): every section — create in a hole / at the end, grow the last region, grow into the adjacent hole, reserve a relocation target in a hole / at the end, move, remove, promote, drop a reservation — preserves 'no byte belongs to two extents' from ANY state satisfying it (createInHole_inv … dropReservation_inv, applySec_inv), hence for EVERY schedule of sections of ANY number of threads regions, in-flight targets, holes and pending holes stay pairwise disjoint (C10_extents_disjoint, C10_regions_disjoint) — at quiescence and in between; C10_sections pins, on the call orders extracted from Region::write_with and create_region_if_needed, that each claim of space is made inside the section that established the space was free (the seeded change moves set_reserved out of its section and breaks this pin); a held reader's snapshot never belongs to another region as long as no flush promotes pending holes while it is held (C10_reader_no_foreign_partial over any schedule without promote); with a flush it does (C10_reader_counterexample = F15, known finding); the executable disjointness check the driver runs on real layouts is proved sound (C10_check_sound). Tied to the code by the extractor and by the directed schedules: every lock event of every operation of A × every script of B on the real crate, contents and C02 invariants checked model-free, final layouts checked by the driver.",
+        level_note="Trusted: Lean kernel + standard axioms; extractor; the lock shim (guarded hook) as the source of parking points; hand-written section model (sections are not generated from the source: C10_sections pins the order facts they rely on). F14 (region placed beyond the file when two creates race for the last hole) reproduced here and repaired by a fix: commit. Known findings: F15 (reader across relocation + flush + reuse reads foreign bytes), F16 (compact punches bytes a concurrent write has copied but not yet published in the region length; a lock-based repair would nest the metadata lock around the mapping lock against the order of C11, so it is recorded, not repaired). Byte-level isolation of writes inside one region is C01's single-region theorem; this check adds the concurrent placement.",
+        technique="Lean 4 proof (per-section invariant preservation ⇒ all interleavings) + directed schedules over every lock event of the real operations with model-free oracles",
     ),
     "C18": dict(
         lean="AnyDB.Props.C18",
